@@ -314,6 +314,48 @@ def outdir_family(seed, tier):
         scns.append(scenario("outdir-%d" % idx, ops, fam="sched", max_orders=12))
     return scns
 
+def poolmix_family(seed, tier):
+    """Pools whose members are partly up to date (C04): an up-to-date member is settled
+    (Ready -> Done without running) while other members of its pool run or wait for a slot; it
+    must neither take nor give back a slot.  The clean members hang (order-only or explicitly)
+    off a dirty step outside the pool, so they are checked in the middle of the invocation."""
+    rnd = random.Random(seed * 131 + 3)
+    scns = []
+    count = 80 if tier == "quick" else 1500
+    for idx in range(count):
+        depth = rnd.choice([1, 1, 2])
+        ngate = rnd.randint(1, 2)
+        nmem = rnd.randint(3, 5)
+        steps = []; dirty = []
+        for gi in range(1, ngate + 1):
+            steps.append(step(["g%d" % gi], ["sg%d" % gi], cmd="gate%d" % gi, eff={"kind": "keep", "reads": []}))
+            dirty.append("sg%d" % gi)
+        nclean = 0
+        for mi in range(1, nmem + 1):
+            clean = rnd.random() < 0.45
+            ins = ["sm%d" % mi]; oo = []
+            if clean or rnd.random() < 0.3:
+                gate = "g%d" % rnd.randint(1, ngate)
+                (oo if rnd.random() < 0.6 else ins).append(gate)
+            if not clean:
+                dirty.append("sm%d" % mi)
+            else:
+                nclean += 1
+            pool = "p" if rnd.random() < 0.85 else rnd.choice(["", "console"])
+            steps.append(step(["m%d" % mi], ins, oo=oo, cmd="mem%d" % mi, pool=pool,
+                              eff={"kind": "write", "reads": []}))
+        g = graph(steps, pools=[("p", depth)])
+        ops = [manifest_op(g)] + [{"op": "write", "path": f} for f in sources(g)]
+        ops.append(invoke([], j=4))
+        for f in dirty:
+            ops.append({"op": "write", "path": f})
+        n = len(steps)
+        outcomes = {s: "fail" for s in range(ngate + 1, n + 1) if rnd.random() < 0.1}
+        ops.append(invoke([], j=rnd.randint(2, 4), k=0, outcomes=outcomes, policy={"kind": "all"}))
+        ops.append(invoke([], j=2, k=0))
+        scns.append(scenario("poolmix-%d" % idx, ops, fam="sched", max_orders=40))
+    return scns
+
 def generate(seed, tier):
     return exhaustive_small(seed, tier) + random_sched(seed, tier) + hold_family(seed, tier) \
-        + args_family(seed, tier) + outdir_family(seed, tier)
+        + args_family(seed, tier) + outdir_family(seed, tier) + poolmix_family(seed, tier)
